@@ -6,6 +6,7 @@ mod lattice;
 mod layout;
 mod oracle;
 mod props;
+mod txnsys;
 
 use common::Tier;
 
